@@ -58,6 +58,10 @@ def gen(rng, tier):
         for p in ps:
             cases.append({"kind": "levels", "perm": list(p), "wrapper": rng.choice(["C", "T", "S", "C-sum"]),
                           "seed": rng.randrange(10 ** 6)})
+    # levels= with a repeated entry is refused (a level list names every level once)
+    for dup in (["a", "b", "a"], ["a", "b", "c", "b"], ["c", "c", "a", "b"], ["a", "a"]):
+        for w in ("C", "T", "S", "C-sum"):
+            cases.append({"kind": "levels", "perm": dup, "wrapper": w, "seed": rng.randrange(10 ** 6), "dup": True})
     n = 4000 if tier == "thorough" else 300
     for _ in range(n):
         cases.append({"kind": "swap", "seed": rng.randrange(10 ** 6)})
@@ -251,7 +255,11 @@ def oracle(c):
         try:
             d = dm.build({"formula": f, "frame": fr, "extra": extra})
         except Exception as e:
+            if c.get("dup"):
+                return None if isinstance(e, ValueError) else f"{f!r} with levels={c['perm']} raises {type(e).__name__}"
             return f"{f!r} with levels={c['perm']} raises {type(e).__name__}: {str(e)[:60]}"
+        if c.get("dup"):
+            return f"{f!r}: levels={c['perm']} repeats a level but was accepted"
         name = f.split("~")[1].strip()
         t = d.common.terms[name]
         comp = t.components[0]
